@@ -393,6 +393,62 @@ def mon_C06(case, obs):
     return out
 
 
+def mon_C06_timing(case, obs):
+    """the soft signal goes out at the first whole scan at or after acceptance + the job's
+    effective soft limit (its own, else the pool's) and before the hard limit; never earlier;
+    the callback is told that limit"""
+    out = []
+    params = job_params(case, obs)
+    for n, (e, o) in enumerate(zip(case['events'], obs)):
+        if not n:
+            continue
+        prev = obs[n - 1]['jobs']
+        live = {w[0] for w in obs[n - 1]['workers']}
+        for k, j in _apply_jobs(o):
+            if k >= len(params) or k >= len(prev):
+                continue
+            soft, hard, _ = params[k]
+            t = prev[k]['extra'][0]
+            new = j['cb'][3][len(prev[k]['cb'][3]):]
+            for sft, lim in new:
+                if not sft:
+                    continue
+                if lim != soft:
+                    out.append(('C06:soft-callback-wrong-limit', 'job %d: callback told %s, effective soft limit %s' % (k, lim, soft)))
+                if not soft or t is None or o['now'] < t + soft:
+                    out.append(('C06:soft-signal-early',
+                                'job %d soft-signalled at %s, accepted %s, effective soft limit %s (event %d %s)'
+                                % (k, o['now'], t, soft, n, e)))
+            if e[0] == 'scan' and not o['exc'] and o['ret'] != 'NoScanner' and soft and t and not prev[k]['ready'] \
+                    and prev[k]['incache'] and o['now'] >= t + soft and not (hard and o['now'] >= t + hard) \
+                    and prev[k]['wpids'] and prev[k]['wpids'][0] in live \
+                    and not any(x[0] for x in j['cb'][3]):
+                out.append(('C06:soft-limit-not-signalled',
+                            'job %d accepted %s with effective soft limit %s got no soft signal from the scan at %s (event %d)'
+                            % (k, t, soft, o['now'], n)))
+    return out
+
+
+def mon_C07_credit(case, obs):
+    """a handled result of an apply job is credited to the worker that owns it (if it is still in
+    the pool): otherwise that worker waits out the 30 s consumption guard when it exits"""
+    out = []
+    expect = {}
+    for n, (e, o) in enumerate(zip(case['events'], obs)):
+        if e[0] == 'ready' and n and e[1] < len(obs[n - 1]['jobs']):
+            pj = obs[n - 1]['jobs'][e[1]]
+            live = {w[0] for w in obs[n - 1]['workers']}
+            if pj['kind'] == 'apply' and pj['incache'] and pj['wpids'] and pj['wpids'][0] in live:
+                expect[pj['wpids'][0]] = expect.get(pj['wpids'][0], 0) + 1
+        for w in o['workers']:
+            if w[4] is not None and w[4] < expect.get(w[0], 0):
+                out.append(('C07:consumed-result-not-credited',
+                            'worker %d sent %d results of apply jobs that were handled, but is credited only %d (event %d %s)'
+                            % (w[0], expect[w[0]], w[4], n, e)))
+                return out
+    return out
+
+
 def mon_C09(case, obs):
     out = []
     for n, (e, o) in enumerate(zip(case['events'], obs)):
@@ -552,7 +608,7 @@ def mon_known_C09(case, obs):
     return out
 
 
-MONITORS = dict(C01=[mon_C01], C04=[mon_C04, mon_known_C04], C05=[mon_C05, mon_C05_jobs, mon_C05_after_result, mon_known_C05], C06=[mon_C06],
+MONITORS = dict(C01=[mon_C01], C04=[mon_C04, mon_known_C04], C05=[mon_C05, mon_C05_jobs, mon_C05_after_result, mon_known_C05], C06=[mon_C06, mon_C06_timing],
                 C09=[mon_C09, mon_known_C09], C10=[mon_C10, mon_known_C10], C11=[mon_C11])
 
 
@@ -851,7 +907,7 @@ def mon_C07_closed(case, obs):
 
 MONITORS['C01'].append(mon_C01_unresolved)
 MONITORS['C01'].append(mon_C01_feed)
-MONITORS['C07'] = [mon_known_C07, mon_C01, mon_C07_closed]
+MONITORS['C07'] = [mon_known_C07, mon_C01, mon_C07_closed, mon_C07_credit]
 MONITORS['C08'] = [mon_C01]
 
 
@@ -905,6 +961,12 @@ def real_scenarios(res, pid, specs):
                 alarm('C08:left-behind-at-terminate-return', 'census when terminate() returned: %s' % cen)
             elif cen.get('supervisor'):
                 alarm('C08:supervisor-outlives-terminate', 'supervisor thread still alive when terminate() returned (gone 1.5 s later)')
+        elif k == 'terminate_after_signal':
+            if r['terminate_s'] > 15:
+                alarm('C08:terminate-slow', 'terminate() took %ss after terminate_job(pid, %s)' % (r['terminate_s'], sp.get('sig')))
+            late = r.get('census_late') or {}
+            if any(late.get(x) for x in ('workers_alive', 'task_handler', 'result_handler', 'supervisor')):
+                alarm('C08:left-behind-after-terminate', 'census 1.5 s after terminate(): %s' % late)
         elif k == 'hard_timeout':
             if r['outcome'][:2] != ['exc', 'TimeLimitExceeded']:
                 alarm('C05:real-hard-limit-not-enforced', 'outcome %s' % r['outcome'])
